@@ -110,7 +110,15 @@ func genConc(rng *mon.RNG) concPlan {
 				hot := p.hot[rng.Intn(len(p.hot))]
 				switch r := rng.Intn(100); {
 				case r < 36:
-					st.Ops = append(st.Ops, cop{K: "set", Key: hot, TTL: int64(rng.Range(1, 4))})
+					ttl := int64(rng.Range(1, 4))
+					if rng.Chance(1, 8) {
+						// large / huge TTLs, where the effective TTL stays representable as a Duration
+						c := bigTTLs(p.maxTTL)
+						if t := c[rng.Intn(len(c))]; p.maxTTL > 0 || t <= maxDurSec {
+							ttl = t
+						}
+					}
+					st.Ops = append(st.Ops, cop{K: "set", Key: hot, TTL: ttl})
 				case r < 66:
 					st.Ops = append(st.Ops, cop{K: "get", Key: hot})
 				case r < 76:
@@ -202,7 +210,7 @@ func (h *hist) exp(s *crec) time.Duration {
 	if h.maxTTL > 0 && ttl > h.maxTTL {
 		ttl = h.maxTTL
 	}
-	return s.t + time.Duration(ttl)*sec
+	return satExp(s.t, ttl)
 }
 
 func (h *hist) dump() []string {
@@ -281,6 +289,9 @@ func (h *hist) judgeHit(g *crec) {
 		return
 	}
 	rec.Count(h.pre+".get.hit", 1)
+	if s.ttl >= 1<<31 {
+		rec.Count(h.pre+".huge_ttl.hits", 1)
+	}
 	if g.key == "" {
 		for _, c := range h.cleanups {
 			if before(s, c) && before(c, g) {
